@@ -3,7 +3,7 @@
 # go.mod is regenerated from /repo/go.mod so dependency versions and replace directives follow it.
 set -e
 REPO=${VERIF_REPO:-/repo}
-cd /verif/harness
+cd "${VERIF_ROOT:-/verif}/harness"
 export GOFLAGS=-mod=mod GOPROXY=off
 unset GOTOOLCHAIN GOSUMDB
 {
